@@ -439,6 +439,19 @@ def opEvOps (j : Json) : R Json := do
     (xs, acc.2 ++ [Json.mkObj [("objects", Json.arr objs.toArray), ("eq", Json.arr eqs.toArray)]])) ([x0], [])
   pure (Json.mkObj [("steps", Json.arr steps.toArray)])
 
+open Edxml.Codec in
+def opXmlCycle (j : Json) : R Json := do
+  let els ← (← fldArr j "elements").mapM fun e => do
+    pure (← fldStr e "tag", ← (← fldArr e "attrs").mapM (pairOf str str))
+  let attrsJson (a : Attrs) : Json := Json.arr (a.map fun kv => jPair kv.1 kv.2).toArray
+  let outs := els.map fun (tag, a) =>
+    match cycle tag a with
+    | some a1 => match cycle tag a1 with
+      | some a2 => Json.mkObj [("once", attrsJson a1), ("twice", attrsJson a2)]
+      | none => Json.mkObj [("once", attrsJson a1), ("twice", Json.str "fail")]
+    | none => Json.str "fail"
+  pure (Json.mkObj [("elements", Json.arr outs.toArray)])
+
 def dispatch (j : Json) : R Json := do
   match ← fldStr j "op" with
   | "ping" => pure (Json.mkObj [("pong", true)])
@@ -456,6 +469,7 @@ def dispatch (j : Json) : R Json := do
   | "norm" => opNorm j
   | "compat" => opCompat j
   | "evops" => opEvOps j
+  | "xmlcycle" => opXmlCycle j
   | x => throw s!"unknown op {x}"
 
 partial def loop (inp out : IO.FS.Stream) : IO Unit := do
